@@ -24,6 +24,20 @@ def main():
         return thorough.run(pid, seed)
     rc, _ = runner.run_property(pid, a.tier, props.rules_for(pid), seed=seed, record_floors=a.record_floors,
                                 replay_key=replay_key)
+    if pid in ("C06", "C10", "C20") and not a.replay:
+        # the taint/bounds analysis is the most delicate engine: its positive/negative twins
+        # (engine/fixtures) are re-checked on every run; a mismatch means the check is broken
+        try:
+            import selftest
+            n, fails = selftest.fixtures()
+            for f in fails:
+                print("CHECK-BROKEN property=%s %s" % (pid, f))
+            if fails:
+                return 2
+            print("%s fixtures: %d twins of the shared analyses give the expected verdict" % (pid, n))
+        except Exception as e:
+            print("CHECK-BROKEN property=%s fixture self-test could not run: %s" % (pid, e))
+            return 2
     return rc
 
 
